@@ -33,7 +33,7 @@ PROPS = {
                           "to 30000) on the real determineNK + real run() with a one-hot calculator against the spec's coefficient map + "
                           "TLC validation of recorded K-lists, k-sets, run() coefficient maps and determineNK calls + float comparison of "
                           "real calculators across factorisations",
-                text="For every catalogue group (quick: 8, thorough: 25) and every pair (NKdiv, NKFFT) inside the constants TLC checks that "
+                text="For every catalogue group (quick: 7, thorough: 25) and every pair (NKdiv, NKFFT) inside the constants TLC checks that "
                      "the k-sets of the K-list cover the dense grid exactly once (no symmetry) resp. that the symmetrised weighted measure is "
                      "the uniform measure of the dense grid (with symmetry reduction) - the k-point SET is the same for every factorisation. "
                      "Each finished state is executed on the real Grid, get_K_list and Data_K.kpoints_all and compared exactly (up to order "
@@ -64,12 +64,12 @@ def tla_set(xs):
     return "{" + ", ".join(('"%s"' % x) if isinstance(x, str) else str(x) for x in xs) + "}"
 
 
-def fk_cfg(groups, divs, ffts, zdivs, zffts, maxtot, kp=True, ab=True):
+def fk_cfg(groups, divs, ffts, zdivs, zffts, maxtot, kp=True, ab=True, invs=None):
     return ("SPECIFICATION Spec\nCONSTANTS\n"
             f"  GROUPS = {tla_set(groups)}\n  DIVS = {tla_set(divs)}\n  FFTS = {tla_set(ffts)}\n"
             f"  ZDIVS = {tla_set(zdivs)}\n  ZFFTS = {tla_set(zffts)}\n  MAXTOT = {maxtot}\n"
             f"  KpDivides = {'TRUE' if kp else 'FALSE'}\n  AbsorbAdds = {'TRUE' if ab else 'FALSE'}\n"
-            + "".join(f"INVARIANT {i}\n" for i in FK_INVS) + "CHECK_DEADLOCK FALSE\n")
+            + "".join(f"INVARIANT {i}\n" for i in (invs or FK_INVS)) + "CHECK_DEADLOCK FALSE\n")
 
 
 def run_model(rep, module, cfg, name, dump=True, timeout=1500, workroot=None, workers=None):
@@ -143,8 +143,9 @@ def part_factor_kernel(rep, thorough, rng, tag):
                 ("fk_3d", fk_cfg(groups, [1, 2, 3, 4], [1, 2], [1, 2, 3, 4], [1, 2], 64))]
         boxes = [([1, 2, 3, 4, 6], [1], 144), ([1, 2, 3, 4], [1, 2, 3, 4], 64)]
     else:
-        groups = ["C1", "C2v", "C4v", "mFe", "mC4", "O", "H6v", "H3T"]
-        cfgs = [("fk", fk_cfg(groups, [1, 2, 3, 4], [1, 2, 3], [1, 2], [1, 2], 36))]
+        groups = ["C2v", "C4v", "mFe", "mC4", "O", "H6v", "H3T"]
+        # InvOrbit is equivalent to InvUniform (sum over the group = |G|/|O| x sum over the orbit): left to the thorough tier
+        cfgs = [("fk", fk_cfg(groups, [1, 2, 3, 4], [1, 2, 3], [1, 2], [1, 2], 36, invs=[i for i in FK_INVS if i != "InvOrbit"]))]
         boxes = [([1, 2, 3, 4], [1, 2], 36)]
     spec_groups = {}
     done = {}      # (grp, div, fft, sym) -> state
@@ -244,9 +245,10 @@ def part_factor_kernel(rep, thorough, rng, tag):
     return done, spec_groups
 
 
-def part_sensitivity(rep, tag):
-    for name, kp, ab, allowed in (("fk_wrongshift", False, True, {"InvMultiset", "InvUniform", "InvKSets", "InvOrbit"}),
-                                  ("fk_noabsorb", True, False, {"InvScanMass", "InvWeightSum", "InvOrbitReps", "InvUniform", "InvOrbit", "LoopIsFunctional"})):
+def part_sensitivity(rep, tag, thorough):
+    variants = (("fk_wrongshift", False, True, {"InvMultiset", "InvUniform", "InvKSets", "InvOrbit"}),
+                ("fk_noabsorb", True, False, {"InvScanMass", "InvWeightSum", "InvOrbitReps", "InvUniform", "InvOrbit", "LoopIsFunctional"}))
+    for name, kp, ab, allowed in (variants if thorough else variants[:1]):
         st = tlc.run_tlc("MC_FactorKernel.tla", fk_cfg(["C1", "C4v"], [1, 2], [1, 2], [1], [1], 16, kp, ab), name, workers=min(4, WORKERS),
                          coverage=False, timeout=600, workroot=os.path.join(WORK, tag))
         v = st.get("violation")
@@ -318,7 +320,7 @@ def part_determine_nk(rep, thorough, rng, tag, fn):
     if thorough:
         consts = '  GROUPS = {"C1", "C4", "O", "H6"}\n  SCALARS = {1, 2, 3, 4, 5}\n  VECTORS <- VecsB\n  RECS <- RecsB\n  PERIODICS <- PerAll\n'
     else:
-        consts = '  GROUPS = {"C1", "C4", "H6"}\n  SCALARS = {2, 3}\n  VECTORS <- VecsQ\n  RECS <- RecsQ\n  PERIODICS <- PerQ\n'
+        consts = '  GROUPS = {"C1", "C4", "H6"}\n  SCALARS = {2, 3}\n  VECTORS <- VecsQ2\n  RECS <- RecsQ\n  PERIODICS <- PerQ\n'
     cfg = "SPECIFICATION Spec\nCONSTANTS\n" + consts + "".join(f"INVARIANT {i}\n" for i in NK_INVS) + "CHECK_DEADLOCK FALSE\n"
     st = run_model(rep, "MC_DetermineNK.tla", cfg, "nk", workroot=os.path.join(WORK, tag))
     ftable.spec_violation(rep, st, "c03_nk")
@@ -572,18 +574,7 @@ def random_nk_records(rep, n, rng, fn):
 
 
 def part_records(rep, recs, thorough, tag):
-    stv, bad = ftable.validate_records("FactorKernelRec.tla", ftable.REC_CFG, recs, tag, timeout=1500, chunk=400)
-    rep.add_tlc("c03_records", stv)
-    rep.add_traces(len(recs))
-    for i, clauses in sorted(bad.items()):
-        r = recs[i]
-        small = {k: v for k, v in r.items() if k not in ("group", "ksets", "orbits")}
-        if "harness_group_is_catalogue" in clauses:
-            raise MachineryError(f"catalogue mismatch: the recorded PointGroup of {r['grp']} is not the specification's group")
-        site = {"klist": "Grid.get_K_list/Data_K.kpoints_all", "run": "run:onehot", "nk": "determineNK"}[r["fn"]]
-        rep.violation(f"{site}:recorded", dict(record=small, failing_clauses=clauses))
-    rep.sample({k: v for k, v in recs[0].items() if k not in ("group", "ksets", "orbits")})
-    # binding self-test: corrupted records must be rejected
+    # binding self-test: corrupted copies travel in the same batch (last chunk) and must be rejected
     corrupted = []
     want = []
     kl = next((r for r in recs if r["fn"] == "klist" and r["sym"] and any(k[3] > 1 for k in r["klist"])), None)
@@ -612,11 +603,23 @@ def part_records(rep, recs, thorough, tag):
         want.append({"value", "post"})
     if len(corrupted) < 2:
         raise MachineryError("binding self-test: not enough records to corrupt")
-    _, b2 = ftable.validate_records("FactorKernelRec.tla", ftable.REC_CFG, corrupted, tag + "_selftest")
+    stv, bad = ftable.validate_records("FactorKernelRec.tla", ftable.REC_CFG, recs + corrupted, tag, timeout=1500, chunk=400)
+    stv = dict(stv, distinct=stv["distinct"] - len(corrupted), generated=stv["generated"] - 2 * len(corrupted))
+    rep.add_tlc("c03_records", stv)
+    rep.add_traces(len(recs))
+    b2 = {i - len(recs): bad.pop(i) for i in sorted(bad) if i >= len(recs)}
     for i, w in enumerate(want):
         if i not in b2 or not (set(b2[i]) & w):
             raise MachineryError(f"binding self-test failed: corrupted record {i} ({corrupted[i]['fn']}) accepted (failing clauses {b2.get(i)})")
     rep.part("binding_selftest", corrupted_records_rejected={str(i): b2[i] for i in b2})
+    for i, clauses in sorted(bad.items()):
+        r = recs[i]
+        small = {k: v for k, v in r.items() if k not in ("group", "ksets", "orbits")}
+        if "harness_group_is_catalogue" in clauses:
+            raise MachineryError(f"catalogue mismatch: the recorded PointGroup of {r['grp']} is not the specification's group")
+        site = {"klist": "Grid.get_K_list/Data_K.kpoints_all", "run": "run:onehot", "nk": "determineNK"}[r["fn"]]
+        rep.violation(f"{site}:recorded", dict(record=small, failing_clauses=clauses))
+    rep.sample({k: v for k, v in recs[0].items() if k not in ("group", "ksets", "orbits")})
 
 
 # ------------------------------------------------------------------------------------------------------------------
@@ -626,6 +629,27 @@ def part_records(rep, recs, thorough, tag):
 def factorisations(N):
     per = [[(d, n // d) for d in range(1, n + 1) if n % d == 0] for n in N]
     return [(tuple(x[0] for x in c), tuple(x[1] for x in c)) for c in itertools.product(*per)]
+
+
+def covering_sample(facts, n, rng):
+    """at most n factorisations: NKFFT = N, NKdiv = N, then greedily those that show a new (direction, NKFFT_i) together with a
+    non-trivial K-shift (NKdiv_i > 1), then a seeded random fill"""
+    if len(facts) <= n:
+        return list(facts)
+    chosen = [facts[0], facts[-1]]
+    rest = [f for f in facts[1:-1]]
+    rng.shuffle(rest)
+    covered = set()
+    while len(chosen) < n and rest:
+        gain = lambda f: len({(i, f[1][i]) for i in range(3) if f[0][i] > 1 and f[1][i] > 1} - covered)
+        best = max(rest, key=gain)
+        if gain(best) == 0:
+            break
+        covered |= {(i, best[1][i]) for i in range(3) if best[0][i] > 1 and best[1][i] > 1}
+        chosen.append(best)
+        rest.remove(best)
+    chosen += rest[:max(0, n - len(chosen))]
+    return chosen
 
 
 def real_calculators(Ef, omega, tab=True, external=False, tetra=True):
@@ -758,7 +782,8 @@ def numeric_worlds(thorough):
         return m.system(periodic=(True, True, False))
     ext = lambda Ef, om, tab=True: real_calculators(Ef, om, tab=tab, external=True)
     both = ("fftw", "numpy")
-    w = [("R+AA planar", r_aa_planar, ext, [(4, 4, 1)] + ([(6, 6, 1), (8, 4, 1)] if thorough else []), both, 9 if thorough else 5),
+    # 6 = 2 x 3: the only way to have an odd FFT length together with a non-zero K-shift
+    w = [("R+AA planar", r_aa_planar, ext, [(6, 4, 1)] + ([(4, 4, 1), (6, 6, 1), (8, 4, 1)] if thorough else []), both, 9 if thorough else 5),
          ("R+AA", r_aa, ext, [(3, 4, 2)] + ([(4, 2, 2), (6, 2, 2), (5, 3, 1)] if thorough else []), both, 12 if thorough else 5),
          ("k.p", kp, kp_calculators, [(3, 4, 2)] + ([(4, 4, 1)] if thorough else []), ("fftw",), 6 if thorough else 4),
          ("SOC", soc, soc_calculators, [(3, 4, 2)] + ([(4, 4, 1)] if thorough else []), both, 6 if thorough else 3),
@@ -787,8 +812,7 @@ def part_numeric(rep, thorough, rng, tag):
                 if system is None:          # built through private names that are gone
                     break
                 facts = factorisations(N)
-                if len(facts) > maxfac:
-                    facts = [facts[0], facts[-1]] + rng.sample(facts[1:-1], maxfac - 2)
+                facts = covering_sample(facts, maxfac, rng)
                 info0 = dict(world=label, N=N, system_seed=seed(), attempt=attempts)
                 try:
                     # Fermi levels around the spectrum of this system
@@ -862,7 +886,7 @@ def check(pid, tier):
     try:
         t0 = cpu_seconds()
         done, spec_groups = part_factor_kernel(rep, thorough, rng, tag)
-        part_sensitivity(rep, tag)
+        part_sensitivity(rep, tag, thorough)
         fn, why = KS.determineNK_adapter()
         if fn is None:
             KS.skipped_private(rep, "determineNK", why)
